@@ -245,6 +245,22 @@ def r2_r6_parser_printer(ctx) -> None:
 def r3_regex(ctx) -> None:
     r, prog = ctx.r, ctx.prog
     r.rule("C05.R3", "regex renderings: to_regex escapes a superset of the regex metacharacters and maps '*'→'.*', '?'→'.'; RegexTransformation uses re.escape on every string part with the same wildcard mapping; SigmaRegularExpression.escape inserts the escape character before every match of the plain alternation of the escaped strings and the escape character")
+    # every regular-expression rendering of a string gets the backend's regex escape set (add_escaped_re), the set that
+    # holds the delimiter of the regex literal; the string escape set (add_escaped) belongs to quoted strings
+    n_tr = 0
+    for q_, f_ in sorted(prog.funcs.items()):
+        if not f_.module.name.startswith(("sigma.conversion", "sigma.backends")):
+            continue
+        for c_ in (x for x in walk_no_nested(f_.node) if isinstance(x, ast.Call) and isinstance(x.func, ast.Attribute) and x.func.attr == "to_regex"):
+            n_tr += 1
+            loc_ = f"{f_.module.relpath}:{c_.lineno}"
+            arg_ = unparse(c_.args[0]) if c_.args else (unparse(c_.keywords[0].value) if c_.keywords else "")
+            if arg_ == "self.add_escaped_re":
+                r.ok("C05.R3", q_, f"{short(c_, 60)}: regex escape set", loc_)
+            else:
+                r.violation("C05.R3", q_, short(c_, 100), f"the {{regex}} form of a string is built with {arg_ or 'no escape set'} instead of self.add_escaped_re: on a backend whose regex literal has its own delimiter (add_escaped_re = '/') a value `a/` renders as /a// — a character of the value ends the literal", loc_)
+    if n_tr < 3:
+        raise AnalysisError(f"only {n_tr} to_regex call sites found in conversion code (3 confirmed)")
     f = prog.func(T + ".SigmaString.to_regex")
     calls = [c for c in walk_no_nested(f.node) if isinstance(c, ast.Call) and call_name(c) == "self.convert"]
     if not calls:
